@@ -250,7 +250,8 @@ def check(case):
         return ('skip', '', '', '')
     w = wrap(ctx, v)
     with common.caught_warnings() as cw:
-        out = pp.pformat(w, width=case['width'], indent=case.get('indent', 4))
+        # sort_dict_keys ON for the odd widths: a subclass instance keeps its class and its value whatever the key-order setting is
+        out = pp.pformat(w, width=case['width'], indent=case.get('indent', 4), sort_dict_keys=bool(case['width'] % 2))
     expected = 'evaluates to ' + base_text(w)
     if cw.bad:
         return ('fallback-warning', out + '   # ' + cw.bad[0], 'no "raised an exception" warning', out)
